@@ -80,8 +80,8 @@ func fileClass(b *sbx.Box, p string) string {
 	if rel == ".goit/branch" {
 		return "branch"
 	}
-	if rel == ".goit/object" {
-		return "object"
+	if rel == ".goit/object" || strings.HasPrefix(rel, ".goit/object.") {
+		return "object" // .goit/object.tmp, .goit/object.<pid>.tmp
 	}
 	switch {
 	case rel == ".goit" || rel == ".goit.init" || strings.HasPrefix(rel, ".goit.init/") || rel == ".goit/objects" || rel == ".goit/refs" || rel == ".goit/refs/heads" || rel == ".goit/refs/tags":
@@ -153,6 +153,8 @@ type prepared struct {
 	nMod    int
 	nFault  int
 	fsckRef bool // Fsck holds before and after the fault-free run
+	// a new file can be added and committed before the command / after its complete run
+	preCommitOK, postCommitOK bool
 	cmd     []string
 }
 
@@ -186,6 +188,8 @@ func prepare(setup []Step, command []string) (*prepared, error) {
 		}
 	}
 	p.fsckRef = Fsck(p.pre) == nil && Fsck(p.post) == nil
+	_, p.preCommitOK = commitProbe(e.Box)
+	_, p.postCommitOK = commitProbe(ff)
 	return p, nil
 }
 
@@ -266,7 +270,30 @@ func (p *prepared) crashOracle(b *sbx.Box, command []string, k int, interrupted 
 	if s.HasGoit && s.Head != p.pre.Head && s.Head != p.post.Head {
 		return mk("foreign-HEAD", fmt.Errorf("HEAD is %q afterwards (before %q, complete run %q)", s.Head, p.pre.Head, p.post.Head))
 	}
+	// (4) "still usable": where a new commit could be made before the command and after its complete run,
+	// it can be made in the state the kill left behind
+	if p.preCommitOK && p.postCommitOK {
+		if r, ok := commitProbe(b); !ok {
+			return mk("cannot-commit-afterwards", fmt.Errorf("a new file can no longer be added and committed afterwards: %s", r))
+		}
+	}
 	return nil
+}
+
+// commitProbe stages and commits a new file in a clone of the box (the box itself is left alone).
+func commitProbe(b *sbx.Box) (string, bool) {
+	c := b.Clone()
+	defer c.Close()
+	if err := c.WriteFile("verif-probe.txt", []byte("probe\n")); err != nil {
+		return err.Error(), false
+	}
+	if r := c.Run("add", "verif-probe.txt"); !r.OK() {
+		return r.String(), false
+	}
+	if r := c.Run("commit", "-m", "probe"); !r.OK() {
+		return r.String(), false
+	}
+	return "", true
 }
 
 // runCrashPoint executes one crash point; returns nil when the property holds there.
